@@ -324,6 +324,13 @@ def parse_header_text(text):
             lo_ = _ints(dom[i])
             hi_ = _ints(dom[i + 1])
             P.ncell.append(tuple(h - l + 1 for l, h in zip(lo_, hi_)))
+        # AMReX reads exactly `finest` ratios from this line and then skips to the next one: extra entries are
+        # harmless, a missing one derails everything after it
+        if len(P.ref) < P.finest or len(P.ncell) < P.finest + 1:
+            raise ReadError('Header lists %d refinement ratios and %d domains for finest level %d' % (len(P.ref), len(P.ncell), P.finest))
+        for l in range(P.finest):
+            if any(int(P.ref[l]) * a != b for a, b in zip(P.ncell[l], P.ncell[l + 1])):
+                raise ReadError('refinement ratio %s between levels %d and %d does not match the domains %s -> %s' % (P.ref[l], l, l + 1, P.ncell[l], P.ncell[l + 1]))
         P.steps = [int(x) for x in next(it).split()]
         P.dx = [[_num(x) for x in next(it).split()] for _ in range(P.finest + 1)]
         P.coord = next(it)
